@@ -4,7 +4,7 @@
 From Coq Require Import Reals ZArith List Lra Lia Bool.
 From Interval Require Import Xreal.
 From Flocq Require Import Core.
-From RD Require Import Base.Expr Base.Run Model.Sampler Model.Continuous Gen.ZigTables Proofs.LawsInvCdf.
+From RD Require Import Base.Expr Base.Run Model.Sampler Model.Continuous Gen.ZigTables Proofs.LawsInvCdf Proofs.LawsTriangular.
 Import ListNotations.
 Open Scope Z_scope.
 Open Scope sampler_scope.
@@ -74,6 +74,9 @@ Qed.
 
 Ltac sstep := cbn [beta_bb beta_bc gamma_unscaled zig norm_tail sbind bind draw_open draw_std draw_oc next_word
                    sret sask sfail allsem negb fst snd].
+
+(* the same without unfolding the loops (never use sstep on a goal containing a loop with literal fuel) *)
+Ltac sstep0 := cbn [sbind bind draw_open draw_std draw_oc next_word sret sask sfail allsem negb fst snd].
 
 (* ---- Beta: w/(b+w) and b/(b+w) with w = a exp v ----------------------------------------------------- *)
 Definition is_aexp (a : expr) (p : expr * list Z) : Prop := exists v, fst p = a *. eexp v.
@@ -332,11 +335,11 @@ Proof.
     + specialize (H2 eq_refl eq_refl).
       assert (pos (shape +. one -. rat 1 3)) as Hd.
       { apply (pos_sub_third _ (s + 1)); [|lra]. cbn [evalX xbin]. now rewrite Hs, one_eval. }
-      destruct ws as [|w ws1]; [exact I|]. sstep.
-      eapply allsem_sbind; [apply gamma_unscaled_leaves|]. intros a ws' Ha. sstep. cbn [fst] in Ha.
+      destruct ws as [|w ws1]; [exact I|]. sstep0.
+      eapply allsem_sbind; [apply gamma_unscaled_leaves|]. intros a ws' Ha. sstep0. cbn [fst] in Ha.
       apply dpos_dnn. repeat apply dpos_mul; auto using pos_dpos, dpos_pow.
     + specialize (H3 eq_refl eq_refl). pose proof (pos_sub_third _ _ Hs H3) as Hd.
-      eapply allsem_sbind; [apply gamma_unscaled_leaves|]. intros v ws' Hv. sstep. cbn [fst] in Hv.
+      eapply allsem_sbind; [apply gamma_unscaled_leaves|]. intros v ws' Hv. sstep0. cbn [fst] in Hv.
       apply dpos_dnn. repeat apply dpos_mul; auto using pos_dpos.
 Qed.
 
@@ -346,7 +349,7 @@ Theorem gamma_nonneg t shape scale ws e rest x :
 Proof.
   intros Hk Hs Hw E. refine (allsem_elim (fun p => dnn (fst p)) _ _ _ E x).
   rewrite gamma_is_gamma_e. apply (gamma_e_leaves _ _ _ _ _ (dyR shape)); auto using pos_dyx, dyx_eval.
-  intros Q L. apply dy_eqb_false in Q. apply dy_ltb_false in L. rewrite dyR_int in *. lra.
+  intros Q L. apply dy_eqb_false in Q. apply dy_ltb_false in L. rewrite dyR_int in Q, L. lra.
 Qed.
 
 Theorem chi_squared_nonneg t k ws e rest x :
@@ -359,11 +362,11 @@ Proof.
     intros y H. destruct (mul_real _ _ _ H) as (a & b & Ea & Eb & ->). rewrite Ea in Eb. injection Eb as <-. nra.
   - assert (evalX (Exact (Dy (fst k) (snd k - 1))) = Xreal (dyR k / 2)) as Hs.
     { cbn [evalX]. rewrite xdy_real. f_equal. unfold dyR, Z.sub. rewrite powerRZ_add by lra.
-      change (powerRZ 2 (-1)) with (/ (2 * 1)). field. }
+      change (powerRZ 2 (- (1))) with (/ (2 * 1)). generalize (powerRZ 2 (snd k)). intros. field. }
     apply (gamma_e_leaves _ _ _ _ _ (dyR k / 2)); auto.
     + exists 2. split; [apply num_eval|lra].
     + intros _ _. lra.
-    + intros Q L. apply dy_eqb_false in Q. apply dy_ltb_false in L. rewrite dyR_int in *. lra.
+    + intros Q L. apply dy_eqb_false in Q. apply dy_ltb_false in L. rewrite dyR_int in Q, L. lra.
 Qed.
 
 (* ---- single-draw families ------------------------------------------------------------------------------------ *)
@@ -389,17 +392,17 @@ Theorem weibull_nonneg t scale shape ws e rest x :
 Proof. intros Hs E V. apply Rlt_le. eapply weibull_pos; eauto. Qed.
 
 (* Frechet > location *)
+Lemma add_gt loc e2 x : dpos e2 -> evalX (dyx loc +. e2) = Xreal x -> dyR loc < x.
+Proof.
+  intros P. cbn [evalX xbin]. rewrite dyx_eval. destruct (evalX e2) as [|r] eqn:E; [discriminate|].
+  cbn [Xadd]. intros H. injection H as <-. specialize (P r E). lra.
+Qed.
 Theorem frechet_gt_loc t loc scale shape ws e rest x :
   0 < dyR scale -> evals (frechet t loc scale shape ws) (e, rest) -> evalX e = Xreal x -> dyR loc < x.
 Proof.
   intros Hs E. destruct (one_draw_inv _ (frechet_expr t loc scale shape) _ _ _ (frechet_run t loc scale shape) eq_refl E)
     as [w [-> ->]].
-  unfold frechet_expr. cbn [evalX xbin]. rewrite dyx_eval.
-  pose proof (dpos_mul (dyx scale) (Bin Pow (Un Neg (Un Ln (u_oc t w))) (Un Neg (Bin Div (num 1) (dyx shape))))
-                (pos_dpos _ (pos_dyx _ Hs)) (dpos_pow _ _)) as P.
-  cbn [evalX xbin] in P. rewrite dyx_eval in P. revert P.
-  generalize (Xmul (Xreal (dyR scale)) (Xpow (evalX (Un Neg (Un Ln (u_oc t w)))) (evalX (Un Neg (Bin Div (num 1) (dyx shape)))))).
-  intros [|r] P; [discriminate|]. cbn [Xadd]. intros H. injection H as <-. specialize (P r eq_refl). lra.
+  unfold frechet_expr. apply add_gt. apply dpos_mul; [apply pos_dpos, pos_dyx, Hs|apply dpos_pow].
 Qed.
 
 (* Pareto >= scale *)
@@ -462,15 +465,15 @@ Theorem pert_in_range t mn mx mode shape ws e rest x :
 Proof.
   intros Hab Hc Hs E V.
   destruct (allsem_elim _ _ _ (pert_leaves t mn mx mode shape ws) E) as [b [U Hb]]. cbn [fst] in Hb. subst e.
-  assert (forall p q, 0 <= q -> 0 < 1 + dyR shape * q / (dyR mx - dyR mn)) as P.
-  { intros p q Hq. assert (0 <= dyR shape * q / (dyR mx - dyR mn)); [|lra].
+  assert (forall q, 0 <= q -> 0 < 1 + dyR shape * q / (dyR mx - dyR mn)) as P.
+  { intros q Hq. assert (0 <= dyR shape * q / (dyR mx - dyR mn)); [|lra].
     apply div_ge_0; [lra|]. apply Rmult_le_pos; assumption. }
   assert (pos (pert_v mn mx mode shape)) as Pv.
   { exists (1 + dyR shape * (dyR mode - dyR mn) / (dyR mx - dyR mn)). unfold pert_v. cbn [evalX xbin].
-    rewrite !dyx_eval, one_eval. cbn [Xsub Xmul]. rewrite Xdiv_nz by lra. split; [reflexivity|apply (P 0); lra]. }
+    rewrite !dyx_eval, one_eval. cbn [Xsub Xmul]. unfold Xdiv'. rewrite is_zero_false by lra. split; [reflexivity|apply P; lra]. }
   assert (pos (pert_w mn mx mode shape)) as Pw.
   { exists (1 + dyR shape * (dyR mx - dyR mode) / (dyR mx - dyR mn)). unfold pert_w. cbn [evalX xbin].
-    rewrite !dyx_eval, one_eval. cbn [Xsub Xmul]. rewrite Xdiv_nz by lra. split; [reflexivity|apply (P 0); lra]. }
+    rewrite !dyx_eval, one_eval. cbn [Xsub Xmul]. unfold Xdiv'. rewrite is_zero_false by lra. split; [reflexivity|apply P; lra]. }
   cbn [evalX xbin] in V. rewrite !dyx_eval in V. destruct (evalX b) as [|rb] eqn:Eb; [discriminate|].
   pose proof (unit_form_range _ _ _ _ Pv Pw U Eb) as B.
   cbn [Xsub Xmul Xadd] in V. injection V as <-. nra.
